@@ -131,7 +131,7 @@ pub fn run_case(case: &Value, out: &mut Obs) {
                         let before = sink.data.len();
                         sink.offered.clear();
                         let mut done = 0;
-                        let mut io_err = Value::Null;
+                        let mut io_err = json!("");
                         for j in 1..=cnt {
                             if !sb.can_read() {
                                 break;
